@@ -66,7 +66,7 @@ class Reporter(object):
             return
         if key in self.violations:
             return
-        d = os.path.join(ROOT, 'replays', self.prop)
+        d = os.path.join(os.environ.get('VERIF_REPLAY_DIR') or os.path.join(ROOT, 'replays'), self.prop)
         os.makedirs(d, exist_ok=True)
         h = hashlib.sha1(key.encode()).hexdigest()[:12]
         path = os.path.join(d, h + '.json')
@@ -100,8 +100,9 @@ class Reporter(object):
             'wall_s': round(time.time() - self.t0, 2),
             'violations': len(self.violations),
         }
-        os.makedirs(os.path.join(ROOT, 'evidence'), exist_ok=True)
-        with open(os.path.join(ROOT, 'evidence', self.prop + '.json'), 'w') as f:
+        evdir = os.environ.get('VERIF_EVIDENCE_DIR') or os.path.join(ROOT, 'evidence')
+        os.makedirs(evdir, exist_ok=True)
+        with open(os.path.join(evdir, self.prop + '.json'), 'w') as f:
             json.dump(ev, f, indent=1, sort_keys=True)
         for key in sorted(self.seen_known):
             print("KNOWN-FINDING: property=%s %s [%s]" % (
